@@ -32,6 +32,9 @@ MUTANTS = [
     ("C15", "DivideSegmentAndConnectionCounts", "graph_operations/multiplication.py", "          processed_circulars.append(l)\n", ""),
     ("C15", "DivideSegmentAndConnectionCounts", "graph_operations/multiplication.py", "      else:\n        self.__divide_counts(l, factor)\n\n  def __clone", "      else:\n        pass\n\n  def __clone"),
     ("C15", "DivideSegmentAndConnectionCounts", "graph_operations/multiplication.py", "        if not any(l is p for p in processed_circulars):", "        if any(l is p for p in processed_circulars):"),
+    ("C15", "CloneSegmentAndConnections", "graph_operations/multiplication.py", "      processed.append(l)\n", ""),
+    ("C15", "CloneSegmentAndConnections", "graph_operations/multiplication.py", "      if lc.to_segment == segment.name:\n        lc.to_segment = clone_name\n", ""),
+    ("C15", "CloneSegmentAndConnections", "graph_operations/multiplication.py", "        lc.name = self._compute_copy_names(lc.name, 2)[0]\n", "        pass\n"),
     ("C16", "Topology_n_dead_ends", "graph_operations/topology.py", "      if not s.dovetails_R: n+=1", "      if s.dovetails_R: n+=1"),
     ("C16", "Topology_n_containments", "graph_operations/topology.py", "      n += len(s.edges_to_containers)", "      n += len(s.edges_to_contained)"),
     ("C16", "Topology_n_dovetails", "graph_operations/topology.py", "      n += len(s.dovetails_R)\n    return n // 2", "      n += len(s.dovetails_R)\n    return n"),
